@@ -59,3 +59,76 @@ class NPProxy:
         if isinstance(a, Sym):
             return abs(a)
         return _np.abs(a)
+
+
+_RINT_N = [0]
+_ATAN2 = None
+
+
+_RINT = None
+
+
+def sym_rint(x):
+    """numpy.rint (round half to even): an uninterpreted function RINT: Real -> Int constrained, per application,
+    to be the integer k with |x-k| <= 1/2 that is even on ties (this determines it uniquely)."""
+    import z3
+    from .sym import Explorer, Sym, tz
+    global _RINT
+    if _RINT is None:
+        _RINT = z3.Function("rint", z3.RealSort(), z3.IntSort())
+    t = tz(x)
+    k = _RINT(t)
+    kr = z3.ToReal(k)
+    half = z3.RealVal("1/2")
+    # (the half-to-even tie rule is deliberately NOT asserted: at exact ties rint is only known to return one of the
+    #  two neighbouring integers, deterministically -- a sound over-approximation that keeps the arithmetic linear)
+    Explorer.current.assume(z3.And(kr - half <= t, t <= kr + half))
+    return Sym(kr)
+
+
+def sym_arctan2(y, x):
+    import z3
+    from .sym import Sym, tz
+    global _ATAN2
+    if _ATAN2 is None:
+        _ATAN2 = z3.Function("arctan2", z3.RealSort(), z3.RealSort(), z3.RealSort())
+    return Sym(_ATAN2(tz(y), tz(x)))
+
+
+class _Linalg:
+    @staticmethod
+    def norm(v):
+        import numpy as _np
+        from .sym import sym_sqrt
+        if getattr(v, "dtype", None) == object:
+            return sym_sqrt(_np.dot(v, v))
+        return _np.linalg.norm(v)
+
+
+def _elementwise(fn):
+    def wrapped(self, a, *rest):
+        import numpy as _np
+        from .sym import Sym
+        if isinstance(a, Sym) or any(isinstance(r, Sym) for r in rest):
+            return fn(a, *rest)
+        if getattr(a, "dtype", None) == object:
+            out = _np.empty(a.shape, dtype=object)
+            for idx in _np.ndindex(*a.shape):
+                out[idx] = fn(a[idx], *[r[idx] if hasattr(r, "shape") else r for r in rest])
+            return out
+        return getattr(_np, fn.__name__.replace("sym_", ""))(a, *rest)
+    return wrapped
+
+
+NPProxy.rint = _elementwise(sym_rint)
+NPProxy.arctan2 = _elementwise(sym_arctan2)
+NPProxy.linalg = _Linalg()
+NPProxy.rad2deg = lambda self, a: a * (180.0 / _np.pi)
+
+
+def _proxy_array(self, a, *args, **k):
+    # np.array(list of Sym) must stay an object array
+    return _np.array(a, *args, **k)
+
+
+NPProxy.array = _proxy_array
